@@ -369,6 +369,15 @@ func c18Upload(c *Ctx, pr *PropertyRun, prop string) {
 					// request layer accepted the answer (2xx)
 					r.Role("sent-value")
 					okv := isNilConst(x.X)
+					if !okv && isErrorType(x.X.Type()) {
+						// the error a call returned, as it is: nil exactly
+						// when the call reported none
+						// (the error result next to the call's other results:
+						// a freshly made error — fmt.Errorf — is not that)
+						if e, isEx := x.X.(*ssa.Extract); isEx {
+							_, okv = e.Tuple.(*ssa.Call)
+						}
+					}
 					if !okv {
 						// dominated by the non-nil edge of a test of an error
 						// returned by a call
